@@ -254,7 +254,18 @@ static int tmrcmp(void *my_data, void *node_data) {
     ev_src_t *src = (ev_src_t *)node_data;
     ev_src_t *my_src = (ev_src_t *)my_data;
 
-    return M_CMP(my_src->tmr_src.its.ns, src->tmr_src.its.ns);
+    /*
+     * Library's own timers (batch timeout, tokenbucket refill) live in the same tree
+     * but must never clash with user's ones, nor with each other: they are told apart by their userptr.
+     */
+    int ret = M_CMP(my_src->flags & M_SRC_INTERNAL, src->flags & M_SRC_INTERNAL);
+    if (ret == 0) {
+        ret = M_CMP(my_src->tmr_src.its.ns, src->tmr_src.its.ns);
+    }
+    if (ret == 0 && my_src->flags & M_SRC_INTERNAL) {
+        ret = M_CMP((uintptr_t)my_src->userptr, (uintptr_t)src->userptr);
+    }
+    return ret;
 }
 
 static int sgncmp(void *my_data, void *node_data) {
@@ -489,6 +500,15 @@ int deregister_mod_src(m_mod_t *mod, m_src_types type, void *src_data) {
 
     ev_src_t key;
     fill_src_key(&key, type, src_data);
+    return m_bst_remove(mod->srcs[type], &key);
+}
+
+/* Same as deregister_mod_src(), for library's own sources (see register_mod_src_priv()) */
+int deregister_mod_src_priv(m_mod_t *mod, m_src_types type, void *src_data, const void *userptr) {
+    ev_src_t key;
+    fill_src_key(&key, type, src_data);
+    key.flags = M_SRC_INTERNAL;
+    key.userptr = userptr;
     return m_bst_remove(mod->srcs[type], &key);
 }
 
